@@ -92,6 +92,24 @@ def simpool_selftest():
                     orders.append((tuple(pool._dispatch_order), tuple(pool._delivery_order)))
             if orders[0] != orders[1]:
                 problems.append("schedule not repeatable %s/%d: %r" % (mode, seed, orders))
+    # concurrent.futures on top of the dispatcher
+    import concurrent.futures as cf
+
+    for mode in ("fifo", "random", "stalled"):
+        seams.configure_pool(mode, [3, 1, 4, 1, 5], 9)
+        with seams.SimExecutor(max_workers=3) as ex:
+            futs = [ex.submit(_sq, i) for i in range(8)]
+            got = sorted(f.result() for f in seams._sim_as_completed(futs))
+            if got != [i * i for i in range(8)]:
+                problems.append("as_completed %s: %r" % (mode, got))
+            if list(ex.map(_sq, range(5))) != [0, 1, 4, 9, 16]:
+                problems.append("executor.map %s" % mode)
+            f = ex.submit(_boom, 3)
+            if not isinstance(f.exception(), ValueError):
+                problems.append("executor exception %s" % mode)
+            d, nd = seams._sim_wait([ex.submit(_sq, 2), ex.submit(_sq, 3)])
+            if sorted(x.result() for x in d) != [4, 9] or nd:
+                problems.append("wait %s" % mode)
     fired = {}
     for mode in ("random", "skewed", "stalled"):
         seams.configure_pool(mode, [], 11)
